@@ -18,10 +18,10 @@ import _dp
 
 def run(c):
     drv = c.build("dp")
-    _dp.model(c)
     if c.replay:
         trace = c.replay
     else:
+        _dp.model(c)
         trace = c.scratch + "/c10.ndjson"
         t1, t2 = c.scratch + "/fault.ndjson", c.scratch + "/alert.ndjson"
         c.run_driver(drv, ["-mode", "fault", "-out", t1, "-topos", "T1,T2,T3"])
